@@ -179,7 +179,7 @@ pub fn gen_macro_items(r: &mut Rng, depth: u32, n: usize) -> String {
 /// An action from (almost) the whole grammar. `waiting` = tap-hold / tap-dance / chord allowed here.
 pub fn gen_action(r: &mut Rng, c: &Ctx, depth: u32, waiting: bool) -> String {
     let t = *r.pick(&TIMES);
-    let pick = r.below(if depth >= 3 { 10 } else { 30 });
+    let pick = r.below(if depth >= 3 { 10 } else { 31 });
     match pick {
         0..=3 => out_key(r),
         4 => format!("{}-{}", r.pick(&["C", "S", "A", "RA", "C-S"]), r.pick(&["q", "w", "x", "1"])),
@@ -284,6 +284,17 @@ pub fn gen_action(r: &mut Rng, c: &Ctx, depth: u32, waiting: bool) -> String {
             }
         }
         29 if c.allow_custom => format!("({} {})", r.pick(&["unmod", "unshift"]), r.pick(&["q", "w", "1", "x"])),
+        // custom actions that act on the OS directly: mouse buttons (held and tapped), wheel, pointer,
+        // caps-word, unicode
+        30 if c.allow_custom => match r.below(8) {
+            0 | 1 => (*r.pick(&["mlft", "mrgt", "mmid"])).to_string(),
+            2 => (*r.pick(&["mltp", "mrtp"])).to_string(),
+            3 => format!("(mwheel-{} {} 120)", r.pick(&["up", "down"]), r.pick(&[5u32, 20, 50])),
+            4 => format!("(movemouse-{} {} 1)", r.pick(&["up", "left"]), r.pick(&[5u32, 20])),
+            5 => format!("(caps-word {})", r.pick(&[10u32, 50, 200])),
+            6 => format!("(unicode {})", r.pick(&["x", "q"])),
+            _ => (*r.pick(&["mlft", "mrgt"])).to_string(),
+        },
         _ => out_key(r),
     }
 }
